@@ -32,6 +32,7 @@ type Engine struct {
 	loadErrs []string
 	overlay  map[string][]byte
 	replayTemplates map[string]*replayTemplate
+	stableCache map[string][]string
 }
 
 func newEngine(repo, verifDir string) *Engine {
@@ -189,6 +190,10 @@ func (e *Engine) load(dirs []string, extra []string) error {
 			}
 		}
 		for _, c := range cf.Contracts {
+			if c.Assumed {
+				e.assumed[c.Func] = c
+				continue
+			}
 			fn := fns[c.Func]
 			if fn == nil {
 				return fmt.Errorf("%s:%d: contract for unknown function %q in %s", c.File, c.Line, c.Func, pkg.PkgPath)
@@ -289,7 +294,7 @@ func (e *Engine) newTrans(fn *ssa.Function, c *Contract) *FnTrans {
 		vals: map[ssa.Value]Val{}, in: map[*ssa.BasicBlock]*BState{}, out: map[*ssa.BasicBlock]*BState{},
 		sites: map[ssa.CallInstruction]*Site{}, siteByAlias: map[string]*Site{}, siteDeclOf: map[ssa.CallInstruction][]string{},
 		abstracted: map[string]int{}, usedSpecs: map[string]bool{}, lets: map[string]*Expr{}, siteInstr: map[string]ssa.CallInstruction{}, ghostSites: map[string]*Site{}, loopInfo: map[int]string{},
-		closures: map[string]*ssa.MakeClosure{}, ifaceTests: map[string]types.Type{}}
+		closures: map[string]*ssa.MakeClosure{}, escCache: map[*ssa.Alloc]bool{}, autoInvs: map[*ssa.BasicBlock]func(string, int) string{}, autoPhis: map[*ssa.BasicBlock][]*ssa.Phi{}, ifaceTests: map[string]types.Type{}}
 	if c != nil {
 		tr.props = c.Props
 	}
